@@ -1638,8 +1638,10 @@ class AstEval:
 
     async def ast_compare(self, arg):
         """Evaluate comparison operators by calling function based on class."""
-        left = arg.left
+        # evaluate each operand exactly once; the comparison handlers receive the values as constants
+        left = ast.Constant(value=await self.aeval(arg.left))
         for cmp_op, right in zip(arg.ops, arg.comparators):
+            right = ast.Constant(value=await self.aeval(right))
             name = "ast_cmpop_" + cmp_op.__class__.__name__.lower()
             val = await getattr(self, name, self.ast_not_implemented)(left, right)
             if not val:
